@@ -729,6 +729,66 @@ def short_case(c):
     return {k: v for k, v in c.items() if k not in ("fam",)}
 
 
+def run_prosumer(ctx, exe):
+    """The consumer side of the property (rpc/plugins/push/prosumer.go): a real push.Prosumer subscribes to topics one
+    after the other while messages are published; for some topics the broker's OnSubscribe hook publishes a first message
+    and lingers, so that the message travels through the poll that is already waiting for another topic while the
+    subscribe answer is still on its way.  Per topic: what the callback received = what the publishes reported accepted,
+    exactly once and in order."""
+    rng = ctx.rng
+    cases, cid = [], 800000
+    topics = ["a", "b", "c"]
+
+    def scenario(order, welcome, traffic):
+        steps, k = [], 0
+        for i, t in enumerate(order):
+            steps.append(["sub", t])
+            steps.append(["sleep", 120])      # the poll that follows the subscription is waiting at the broker
+            for _ in range(traffic):
+                for u in order[:i + 1]:
+                    k += 1
+                    steps.append(["push", u, "m%d-%s" % (k, u)])
+                if rng.random() < 0.5:
+                    steps.append(["sleep", rng.choice([1, 5, 20])])
+        steps.append(["sleep", 50])
+        for u in order:
+            k += 1
+            steps.append(["push", u, "last%d-%s" % (k, u)])
+        return {"kind": "prosumer", "timeout_ms": rng.choice([300, 1000]), "heartbeat_ms": 10000, "psteps": steps,
+                "welcome": welcome, "lag_ms": rng.choice([30, 60])}
+
+    for order in (["a", "b"], ["a", "b", "c"], ["b", "a"]):
+        for welcome in ([], order[1:], order, order[-1:]):
+            for traffic in (0, 1, 2):
+                cid += 1
+                c = scenario(order, welcome, traffic)
+                c["id"] = cid
+                cases.append(c)
+    rc, obs, err = hv.run_harness_parallel(exe, cases, nproc=6, timeout=900)
+    byid = {o["id"]: o for o in obs if "id" in o}
+    for c in cases:
+        o = byid.get(c["id"])
+        if o is None or o.get("err"):
+            ctx.bump("prosumer_env")
+            continue
+        acc, dl = o.get("accepted") or {}, o.get("delivered") or {}
+        ctx.count_case("prosumer|" + json.dumps([c["psteps"], c["welcome"]]), nontrivial=bool(c["welcome"]))
+        ctx.bump("seq_family", "prosumer")
+        for t in sorted(set(acc) | set(dl)):
+            a, d = acc.get(t, []), dl.get(t, [])
+            if a == d:
+                continue
+            lost = [m for m in a if m not in d]
+            dup = [m for m in d if d.count(m) > 1]
+            alien = [m for m in d if m not in a]
+            kind = "lost" if lost else "duplicated" if dup else "never-accepted" if alien else "reordered"
+            ctx.report("c19:prosumer:message-%s" % kind,
+                       "push.Prosumer subscribed to %s (welcome from OnSubscribe for %s): topic %s accepted %s, the callback received %s"
+                       % (c["psteps"] and [s[1] for s in c["psteps"] if s[0] == "sub"], c["welcome"], t, a[:8], d[:8]),
+                       {"case": c, "observation": o, "failing_input": True})
+            break
+
+
 def run(ctx):
     ctx.level = "proof"
     ctx.assumptions += [
@@ -757,6 +817,7 @@ def run(ctx):
                  "(time-out while the responder is popped, publish between the empty check and the registration, heartbeat "
                  "registering after the re-poll) are proved about the model but not forced on the implementation "
                  "(apply hooks/c19-push.patch to enable)")
+    run_prosumer(ctx, exe)
     cases = gen_cases(ctx, hook)
     rc, obs, err = hv.run_harness_parallel(exe, cases, nproc=8, timeout=2400)
     byid = {o["id"]: o for o in obs if "id" in o}
